@@ -5,7 +5,7 @@ worktree of /repo's HEAD, runs the existing tests, then every quick check agains
 /verif/benign/<name>/.  Every check is expected to exit 0 without a VIOLATION line; MODEL-DRIFT diagnostics are expected where the
 change touches what the implementation-shaped layer describes.  /repo itself is never touched; evidence and replays of these
 runs go to a scratch directory."""
-import json, os, shutil, subprocess, sys, time
+import json, os, re, shutil, subprocess, sys, time
 
 name, src = sys.argv[1], sys.argv[2]
 ALL = ["C%02d" % i for i in range(1, 21)]
@@ -28,6 +28,8 @@ def sh(cmd, cwd=None, timeout=7200):
 
 
 res = {"checks": {}}
+if len(sys.argv) > 3 and os.path.exists(os.path.join(dst, "result.json")):
+    res["checks"] = json.load(open(os.path.join(dst, "result.json")))["checks"]     # re-run of some checks: keep the others
 try:
     rc, out = sh("git apply %s/patch.diff" % dst)
     assert rc == 0, out
@@ -39,11 +41,12 @@ try:
         rc, out = sh("bin/check %s --tier quick" % c, cwd="/verif")
         viol = [l for l in out.splitlines() if l.startswith("VIOLATION")]
         what = [l.strip() for l in out.splitlines() if l.strip().startswith("what:")]
-        drift = [l for l in out.splitlines() if "MODEL-DRIFT" in l]
+        drift = [l for l in out.splitlines() if l.startswith("MODEL-DRIFT")]
+        ndrift = int(re.search(r"(\d+) diagnostics", drift[0]).group(1)) if drift else 0
         infra = [l for l in out.splitlines() if l.startswith("INFRA-ERROR")]
-        res["checks"][c] = {"exit": rc, "violations": len(viol), "first": what[:2], "model_drift_lines": len(drift),
+        res["checks"][c] = {"exit": rc, "violations": len(viol), "first": what[:2], "model_drift": ndrift,
                             "drift_first": [d[:300] for d in drift[:2]], "infra": [i[:600] for i in infra[:1]], "wall_s": round(time.time() - t, 1)}
-        print(c, rc, len(viol), len(drift), (what[:1] or infra[:1] or [""])[0][:200], flush=True)
+        print(c, rc, len(viol), ndrift, (what[:1] or infra[:1] or [""])[0][:200], flush=True)
 finally:
     subprocess.run("git -C /repo worktree remove --force %s; git -C /repo worktree prune" % SCRATCH, shell=True)
     shutil.rmtree(OUT, ignore_errors=True)
